@@ -4,7 +4,9 @@ package main
 import (
 	"context"
 	"fmt"
+	"os"
 	"strings"
+	"time"
 
 	"github.com/cloudwego/hertz/pkg/app"
 	"github.com/cloudwego/hertz/pkg/common/config"
@@ -12,13 +14,14 @@ import (
 
 	"verif/harness/lib/mon"
 	"verif/harness/lib/rig"
+	"verif/harness/lib/sconn"
 )
 
 func main() {
 	mon.Main(&mon.Spec{
 		ID: "C12",
 		Rule: "family chains: every chain program of length 1..5 (thorough: 1..7) over 7 handler behaviours {return, Next-then-return, Abort, Next-then-Abort, Abort-then-Next, Next twice, AbortWithStatus}, the handlers split over engine.Use / group.Use / route handlers at every split point (quick: one seeded split per program), run through Engine.ServeHTTP under an online trace checker and compared with a reference chain interpreter; " +
-			"family groups: seeded registration programs (nested groups to depth 3, Use before and after route registration) probed with matched, unmatched and wrong-method requests; distinct = the program itself (enumeration without repeats) / hash of the registration program; non-trivial = chain length >= 2",
+			"family groups: seeded registration programs (nested groups to depth 3, Use before and after route registration) probed with matched, unmatched and wrong-method requests; family served: seeded chains behind the real HTTP/1 server loop, 1..3 pipelined requests per scripted connection, every request must show the whole chain from handler 0 (one shard runs with HERTZ_DISABLE_REQUEST_CONTEXT_POOL=true, the switch the server reads at start-up); distinct = the program itself (enumeration without repeats) / hash of the registration program; non-trivial = chain length >= 2",
 		Assumptions: []string{
 			"Use on a group that already has child groups is not generated (snapshot semantics make that order ambiguous in the property text); everything else — sibling groups, their Use calls and their routes — is registered in a random interleaving",
 			"404/405 traces must contain every engine-level middleware registered before the request is served, in registration order, before the NoRoute/NoMethod handlers",
@@ -33,9 +36,16 @@ func main() {
 			return 7
 		},
 		Floors: func(t string) map[string]int64 {
-			return map[string]int64{"chain_executions": 19607, "group_probes": 5000}
+			return map[string]int64{"chain_executions": 19607, "group_probes": 5000, "served_requests": 3000, "served_connections_without_context_pool": 100}
 		},
 		Work: work,
+		// the last shard's worker runs with the request-context pool switched off
+		WorkerEnv: func(shard int) []string {
+			if shard == 6 {
+				return []string{"HERTZ_DISABLE_REQUEST_CONTEXT_POOL=true"}
+			}
+			return nil
+		},
 	})
 }
 
@@ -606,8 +616,59 @@ func groups(w *mon.W) {
 	})
 }
 
+// served: the same chains behind the real HTTP/1 server loop (which hands out the request
+// contexts): 1..3 pipelined requests on one scripted connection; every request, the first
+// of its connection as much as the later ones, must show the whole chain from handler 0.
+// One shard runs with the request-context pool switched off (the switch the server reads
+// from the environment at start-up).
+func served(w *mon.W) {
+	w.Cases("served", uint64(w.Pick(3000, 60000)), func(c *mon.Case) {
+		r := c.R
+		L := 1 + r.Intn(6)
+		a := r.Intn(L)
+		b := a + r.Intn(L-a)
+		ce := buildChain(L, a, b)
+		if err := ce.e.Init(); err != nil {
+			panic(err)
+		}
+		ce.e.MarkAsRunning()
+		prog := make([]int, L)
+		for i := range prog {
+			prog[i] = r.Intn(7)
+		}
+		ce.t.prog = prog
+		k := 1 + r.Intn(3)
+		in := strings.Repeat("GET /g/r HTTP/1.1\r\nHost: h\r\n\r\n", k)
+		c.Detail = func() interface{} {
+			return map[string]interface{}{"family": "served", "program": prog, "engine_use": a, "group_use": b - a, "requests_on_the_connection": k, "context_pool_disabled_by_env": os.Getenv("HERTZ_DISABLE_REQUEST_CONTEXT_POOL")}
+		}
+		res := rig.Serve(ce.e, sconn.New([][]byte{[]byte(in)}, sconn.EOF), 4096, false, 15*time.Second)
+		w.Count("served_connections", 1)
+		if os.Getenv("HERTZ_DISABLE_REQUEST_CONTEXT_POOL") == "true" {
+			w.Count("served_connections_without_context_pool", 1)
+		}
+		if res.Hang || res.Panic != nil {
+			c.Violate("served-panic", "the server loop hangs or panics: %v\n%s", res.Panic, res.Stack)
+			return
+		}
+		var want []string
+		for i := 0; i < k; i++ {
+			want = append(want, ref(prog)...)
+		}
+		if strings.Join(ce.t.ev, " ") != strings.Join(want, " ") {
+			c.Violate("served-trace", "chain %v (engine.Use=%d group.Use=%d) behind the server loop, %d requests on one connection (context pool disabled by env: %q): trace %v, reference %v", prog, a, b-a, k, os.Getenv("HERTZ_DISABLE_REQUEST_CONTEXT_POOL"), ce.t.ev, want)
+			return
+		}
+		w.Count("served_requests", int64(k))
+		if L >= 2 {
+			w.Shape(mon.Hash64("served", fmt.Sprint(prog), a, b, k))
+		}
+	})
+}
+
 func work(w *mon.W) {
 	longChains(w)
 	chains(w)
 	groups(w)
+	served(w)
 }
